@@ -46,8 +46,9 @@ def main():
     }
     with open(os.path.join(VERIF, 'MANIFEST.json'), 'w') as f:
         json.dump(m, f, indent=1)
-    import jsonschema
-    jsonschema.validate(m, json.load(open('/root/.vp/MANIFEST.schema.json')))
+    import subprocess
+    r = subprocess.run(['python3-vt', '-c', "import json,jsonschema;jsonschema.validate(json.load(open('%s/MANIFEST.json')), json.load(open('/root/.vp/MANIFEST.schema.json')))" % VERIF])
+    assert r.returncode == 0, 'MANIFEST.json does not validate'
     print('MANIFEST.json: %d checks, %d not_applicable' % (len(checks), len(na)))
 
 if __name__ == '__main__':
